@@ -7,8 +7,8 @@ Driver entry for C18.
                 batch = `<ev,ev,…>@<key,key,…>`   ("-" = empty list); the part after `@` is the order in which
                 the real handler ranged over the Gateways without Deployments (observed), `step`'s `order`
                 ev    = ug:<ns>/<name>:<class> | dg:<ns>/<name> | uc:<class> | dc:<class> | crd
-  output     :  one observation per batch joined by ';' (faithful model) + ` ## ` + the same for the repaired
-                variant:  `P=<key>><dep>,…&D=<name>^<sel>^<pod>^<arg|arg…>,…&S=<gc>:<type>/<T|F>/<reason>+…,…&G=<key>:<class>,…&C=<gc>,…&N=<nextID>&X=<crash|->`
+  output     :  one observation per batch joined by ';' (`step`, the code in the tree) + ` ## ` + the same for
+                `stepPreFix` (removal loop before commit bb91ad6, regression detector):  `P=<key>><dep>,…&D=<name>^<sel>^<pod>^<arg|arg…>,…&S=<gc>:<type>/<T|F>/<reason>+…,…&G=<key>:<class>,…&C=<gc>,…&N=<nextID>&X=<crash|->`
   judge line :  `gc=<name> snaps=<snap;snap;…>`  — the CLUSTER as listed through the fake client after each batch
                 snap = `G=<key>:<class>,…&C=<gc>:<ours 0|1>:<type>/<T|F>/<reason>+…,…&D=<name>^<sel>^<pod>^<args>,…&X=<panic class|->`
   output     :  `ok` | `ok precondition` | `fail <clause>,<clause>…`
@@ -80,7 +80,7 @@ def modelLine (line : String) : String :=
     match (listOf h ";").mapM parseBatch with
     | some hist =>
       let cfg : Cfg := ⟨gc.toList, (listOf tm "|").map String.toList⟩
-      showList (trace (step cfg) init hist) ";" ++ " ## " ++ showList (trace (stepFixed cfg) init hist) ";"
+      showList (trace (step cfg) init hist) ";" ++ " ## " ++ showList (trace (stepPreFix cfg) init hist) ";"
     | none => "bad-op"
   | _, _, _ => "bad-op"
 
